@@ -1,10 +1,10 @@
 #!/bin/bash
 # usage: seed3take.sh <PROP> <k> [pkgdir]   takes /tmp/seed3/<PROP>/_out/<k> -> /verif/seeded/<PROP>-<next>, confirms it independently
 P=$1; K=$2; PKG=${3:-hermes}
-SRC=/tmp/seed3/$P/_out/$K
+SRC=${SEEDBASE:-/tmp/seed3}/$P/_out/$K
 n=1; while [ -d /verif/seeded/$P-$n ]; do n=$((n+1)); done
 D=/verif/seeded/$P-$n
 mkdir -p $D; cp $SRC/patch.diff $SRC/demo_test.go $SRC/NOTES.md $D/ 2>/dev/null
-/verif/tools/seedconfirm.sh /tmp/seed3/$P $D $PKG > $D/confirm.log 2>&1
+/verif/tools/seedconfirm.sh ${SEEDBASE:-/tmp/seed3}/$P $D $PKG > $D/confirm.log 2>&1
 tail -2 $D/confirm.log
 echo "stored as $D"
